@@ -3,50 +3,50 @@
 import json
 
 CLAIMS = {
- "C01": ("static analysis: float-purity lint over go/ssa (H1), writer/reader table extraction from SSA (T1 type words, member SRID; T2 byte-order arms and order byte), loop-completeness lint (D2)",
-         "Decided statically: coordinates are only moved/bit-cast on the WKB/EWKB path (H1, for all float64 bit patterns); reader(writer(K)) = K on type words for the seven WKB kinds with both readers identical, members carry SRID 0, byte-order arms are pure and the order byte is inverse between writer and readers (T1/T2); writer member loops cover all members (D2). NOT decided: value-level round-trip equality, hex/prefix framing.",
+ "C01": ("static analysis: float-purity lint over go/ssa (H1), writer/reader table extraction from SSA (T1 type words, member SRID; T1c scanner coercion guard; T2 byte-order arms and order byte), loop-completeness lint (D2), no-shared-result points-to check (B2g)",
+         "Decided statically: coordinates are only moved/bit-cast on the WKB/EWKB path (H1, for all float64 bit patterns); reader(writer(K)) = K on type words for the seven WKB kinds with both readers identical, members carry SRID 0, a multi geometry is coerced to its member only under len == 1 (T1c), byte-order arms are pure and the order byte is inverse between writer and readers (T1/T2), Marshal results reference no package-level buffer (B2g); writer member loops cover all members (D2). NOT decided: value-level round-trip equality, hex/prefix framing.",
          "DESIGN.md §4 C01"),
- "C02": ("static analysis: type-name/tag/depth table extraction (T5), kind typestate at the coordinates stores, loop lint (D2), abstract interpretation of the constructors (A)",
+ "C02": ("static analysis: type-name/tag/depth table extraction (T5), kind typestate at the coordinates stores, loop lints (D2 member loops, D4 member delegation, L3 container reset), abstract interpretation of the constructors (A)",
          "Decided statically: JSON and BSON decoders map each RFC 7946 type name to a type whose GeoJSONType() and nesting depth match, identically in both; marshal/unmarshal documents name the same members; Ring/Bound/Collection never reach \"coordinates\"; member loops complete; NewGeometry/NewFeature total. NOT decided: float text round trip, properties/ids/foreign members, byte-identical re-marshal.",
          "DESIGN.md §4 C02"),
- "C03": ("static analysis: map-order determinism dataflow (F), run-once/member loop lints (D1, D2)",
+ "C03": ("static analysis: map-order determinism dataflow (F), run-once/member loop lints (D1, D2), loop-carried alias lint (L1)",
          "Decided statically for all inputs and all map orders: no map iteration order reaches Marshal's output (F). Every collection member/feature loop is complete (D1/D2; addFeature's first-iteration return is the recorded known finding). NOT decided: zigzag arithmetic, ring regrouping, value widening.",
          "DESIGN.md §4 C03"),
- "C04": ("static analysis: keyword/offset/EMPTY/format table extraction from the syntax tree (T4), abstract interpretation of the writer (A), loop lint (D2)",
-         "Decided statically: writer and parsers agree on keyword, keyword offset and EMPTY literal for every kind; Ring/Bound written as POLYGON; floats printed with %g/%v and parsed with 64 bits; the writer is total on every kind/shape. NOT decided: the text grammar (collection splitting on exponents/nesting/EMPTY members, whitespace tolerance) - a round-trip failure there is known and out of reach of this family.",
+ "C04": ("static analysis: keyword/offset/EMPTY/format table extraction from the syntax tree (T4), abstract interpretation of the writer (A), loop lint (D2), no-shared-result points-to check (B2g)",
+         "Decided statically: writer and parsers agree on keyword, keyword offset and EMPTY literal for every kind; Ring/Bound written as POLYGON; floats printed with %g/%v and parsed with 64 bits; the writer is total on every kind/shape; Marshal results reference no package-level buffer (B2g). NOT decided: the text grammar (collection splitting on exponents/nesting/EMPTY members, whitespace tolerance) - a round-trip failure there is known and out of reach of this family.",
          "DESIGN.md §4 C04"),
- "C05": ("static analysis: bit-width tracking of decoded counts (E2)",
-         "Decided statically: guard arithmetic on decoded counts cannot wrap in a narrow unsigned type (E2). NOT decided: termination, long inputs, total allocation as a number.",
+ "C05": ("static analysis: bit-width tracking of decoded counts (E2); path-sensitive abstract interpretation of every decoder entry over hostile byte/string lengths with symbolic decoded counts, modelled protoscan/hex/json primitives and an allocation bound (A)",
+         "Decided statically: guard arithmetic on decoded counts cannot wrap in a narrow unsigned type (E2); for every WKB/EWKB byte, scanner and stream decoder, the WKT parsers, the GeoJSON geometry decoders and the MVT decoder, and every input length 0..24 (thorough 0..64): no certain index/slice/nil fault on a path whose branches depend only on attacker-chosen values, and no make() sized by a decoded count beyond 4 x input + 65536 (A). NOT decided: termination, long inputs, total allocation as a number.",
          "DESIGN.md §4 C05"),
- "C06": ("static analysis: inclusion-based points-to (fresh-result B2, no-write B1), abstract interpretation over kinds x degenerate shapes (A), loop lint (D2)",
-         "Decided statically: every Clone result is fresh at every nesting level and Clone never writes its argument (B1/B2, all inputs); no certain fault for nil/empty/singleton receivers of the core methods (A); element loops complete (D2). NOT decided: lattice laws, tightness of Bound, orientation sign.",
+ "C06": ("static analysis: inclusion-based points-to (fresh-result B2, no-write B1), abstract interpretation over kinds x degenerate shapes (A), loop lint (D2), closed-box predicate table (T10)",
+         "Decided statically: every Clone result is fresh at every nesting level and Clone never writes its argument (B1/B2, all inputs); no certain fault for nil/empty/singleton receivers of the core methods (A); element loops complete (D2); Bound.IsEmpty/Contains/Intersects compare the same axis, strictly and in the rejecting direction (a one-point bound is not empty, the boundary is inside, touching boxes intersect) (T10). NOT decided: lattice laws, tightness of Bound, orientation sign.",
          "DESIGN.md §4 C06"),
  "C07": ("static analysis: points-to effects (B1 no-write, B2 fresh-result) for the line-clipping entries, abstract interpretation over line shapes (A), segment-loop lint (D3), region-code table extraction and open-flag flow (T7)",
          "Decided statically for all inputs: clip.LineString/MultiLineString/MultiPoint never write their argument and the returned pieces never alias it (B1/B2); no certain fault for nil/empty/1..4-vertex lines (A); the clipping loop visits every segment (D3); region codes: closed variant strict (boundary inside), open variant non-strict, same bit per edge everywhere, intersect returns the box edge coordinate unmodified, the open option reaches the open code (T7). NOT decided: that the pieces are exactly the inside part, order, length, idempotence, open-bound semantics.",
          "DESIGN.md §4 C07"),
- "C08": ("static analysis: abstract interpretation over kinds x degenerate shapes with shape-decided postconditions (A, A-post/H4), loop lints (D1-D3), region-code tables (T7)",
+ "C08": ("static analysis: abstract interpretation over kinds x degenerate shapes with shape-decided postconditions (A, A-post/H4), loop lints (D1-D3, D5 no early exit from accumulating loops), region-code tables (T7)",
          "Decided statically: no certain fault through any clip entry for any kind x degenerate shape; clip.Geometry yields a nil interface for nil/empty input and never a typed nil inside a non-nil interface (the form mvt Layer.Clip tests); member loops complete. NOT decided: enclosed-region preservation, area additivity.",
          "DESIGN.md §4 C08"),
  "C10": ("static analysis: segment/member loop-completeness lint (D2, D3), abstract interpretation over kinds x shapes (A)",
          "Decided statically: every segment loop visits every consecutive pair, member loops every member (D2/D3); no certain fault on any kind/shape (A). NOT decided: every numeric identity.",
          "DESIGN.md §4 C10"),
- "C11": ("static analysis: abstract interpretation of every public quadtree method over receiver states x boundary arguments with postconditions (A, A-post), reject-before-write dominance on points-to effects (B3)",
-         "Decided statically: no certain fault in Add/Remove/Find/Matching/KNearest*/InBound* on a never-populated, one-point, two-level or emptied tree with k in 0..3, short/long buffers, nil/non-nil filters; empty-tree queries return nil, Remove reports false, k=0 returns nothing (A-post); every write of Add is dominated by the passing edge of the bound test, so a rejected add changes nothing (B3). NOT decided: answers after histories, pruning, ordering, removal pull-up.",
+ "C11": ("static analysis: abstract interpretation of every public quadtree method over receiver states x boundary arguments with postconditions (A, A-post), reject-before-write dominance on points-to effects (B3), quadtree cell tables (T9), closed-box predicate tables (T10)",
+         "Decided statically: no certain fault in Add/Remove/Find/Matching/KNearest*/InBound* on a never-populated, one-point, two-level or emptied tree with k in 0..3, short/long buffers, nil/non-nil filters; empty-tree queries return nil, Remove reports false, k=0 returns nothing (A-post); every write of Add is dominated by the passing edge of the bound test, so a rejected add changes nothing (B3); add/childIndex/visit agree on the child-index bits, comparators and sub-cells (T9); cell pruning and the in-bound filter are strict closed-box tests (T10). NOT decided: answers after histories, pruning, ordering, removal pull-up.",
          "DESIGN.md §4 C11"),
- "C12": ("static analysis: abstract interpretation over kinds x shapes (A), loop lint (D2)",
-         "Decided statically: no certain fault for any kind x degenerate shape through every simplify entry (A); wrappers visit every member (D2). NOT decided: error bound, idempotence, minimum counts, monotonicity.",
+ "C12": ("static analysis: abstract interpretation over kinds x shapes (A), loop lint (D2), points-to no-write analysis of the simplifier configuration (B1)",
+         "Decided statically: no certain fault for any kind x degenerate shape through every simplify entry (A); wrappers visit every member (D2); no simplify method writes its receiver, so a simplifier can be reused (B1). NOT decided: error bound, idempotence, minimum counts, monotonicity.",
          "DESIGN.md §4 C12"),
- "C14": ("static analysis: run-once/member/segment loop lints (D1-D3), abstract interpretation over kinds x shapes (A)",
+ "C14": ("static analysis: run-once/member/segment loop lints (D1-D3), no early exit from accumulating loops (D5), abstract interpretation over kinds x shapes (A)",
          "Decided statically: every member contributes and the line walk visits every segment (D1-D3); no certain fault for any kind/shape (A). NOT decided: DDA, scan fill, merge arithmetic.",
          "DESIGN.md §4 C14"),
- "C15": ("static analysis: index-preserving-map dataflow over go/ssa (H3), loop lint (D2), abstract interpretation over kinds x shapes (A)",
-         "Decided statically: every projection helper stores f(x[i]) to x[i] for the same index value and from no other element, the bound helper projects exactly its two corners, every member/feature loop is complete, no certain fault for any kind/shape. NOT decided: every numeric inverse/rounding claim (mercator closed forms, half-pixel offsets, non-power-of-two extents).",
+ "C15": ("static analysis: index-preserving-map dataflow over go/ssa (H3), tile-rounding sibling check (H6), discarded-result lint (R1), loop lint (D2), abstract interpretation over kinds x shapes (A)",
+         "Decided statically: every projection helper stores f(x[i]) to x[i] for the same index value and from no other element, the bound helper projects exactly its two corners, every member/feature loop is complete, no projected member result is dropped (R1), both tile projections floor each coordinate (H6), no certain fault for any kind/shape. NOT decided: every numeric inverse/rounding claim (mercator closed forms, half-pixel offsets, non-power-of-two extents).",
          "DESIGN.md §4 C15"),
  "C16": ("static analysis: abstract interpretation over 2-d kinds x shapes x orientations (A), loop lint (D2), region-code and corner-table extraction (T7, T8)",
          "Decided statically: no certain fault for any kind x degenerate shape x both orientations (A); member loops complete (D2); smartclip's region code agrees with clip's and treats the boundary as outside (T7); nexts/pointFor corner tables decided completely: single 8-cycles, mutually inverse, correctly oriented, on their edges (T8). NOT decided: region equality, hole attachment.",
          "DESIGN.md §4 C16"),
- "C17": ("static analysis: abstract interpretation over line shapes x enumerated counts (A), segment loop lint (D3)",
-         "Decided statically: no certain fault (negative make, index) for nil/empty/1..4-vertex lines x N in {-1,0,1,2,3,free} (A); distance loops visit every segment (D3). NOT decided: exact count and spacing.",
+ "C17": ("static analysis: abstract interpretation over line shapes x enumerated counts with postconditions (A, A-post), segment loop lint (D3), last-iteration-wins lint (L2)",
+         "Decided statically: no certain fault (negative make, index) for nil/empty/1..4-vertex lines x N in {-1,0,1,2,3,free} (A); non-positive N returns nil and a line of fewer than two vertices comes back as it is (A-post); distance loops visit every segment (D3); the all-equal scan accumulates over every vertex (L2). NOT decided: exact count and spacing.",
          "DESIGN.md §4 C17"),
  "C18": ("static analysis: member/segment loop lints (D2, D3), abstract interpretation over kinds x shapes (A)",
          "Thin claim. Decided statically: area/length loops cover every member/segment (D2/D3); no certain fault on any kind/shape (A). NOT decided: any identity on the sphere.",
@@ -54,7 +54,7 @@ CLAIMS = {
  "C19": ("static analysis: sound may-write analysis (inclusion-based, field-sensitive points-to over go/ssa) of the six query methods",
          "Decided statically for all schedules, all trees, all arguments: every store reachable from Find/Matching/KNearest/KNearestMatching/InBound/InBoundMatching targets a per-call allocation or the caller's buffer; no package-level variable is written. With no shared write there is no race and the tree is unchanged. Assumes the user's FilterFunc and Pointer.Point() are pure and buf is per-goroutine.",
          "DESIGN.md §4 C19"),
- "C20": ("static analysis: kind typestate over go/ssa (K1-K3), sealed-interface compile-fail witness (H5), run-once loop lint (D1), abstract interpretation of every generic entry over kinds x shapes (A), points-to no-write analysis of the read-only generic entries (B1)",
+ "C20": ("static analysis: kind typestate over go/ssa (K1-K3), sealed-interface compile-fail witness (H5), run-once loop lint (D1), abstract interpretation of every generic entry over kinds x shapes (A), points-to no-write analysis of the read-only generic entries (B1), discarded-result / member-delegation / early-exit / last-iteration lints (R1, D4, D5, L2)",
          "Decided statically: every type switch/assertion over orb.Geometry handles every kind and nil that can reach it; the interface is sealed; no collection loop is cut after its first member; no certain fault in any exported function taking orb.Geometry for nil, all nine kinds and degenerate members at every nesting level; the read-only generic entries (measures, predicates, encoders, covers, Clone, Equal) never write their argument (B1, all inputs). NOT decided: numeric agreement with the typed functions.",
          "DESIGN.md §4 C20"),
 }
